@@ -10,6 +10,7 @@ ops (one output line each):
   body <type> <flags> <sid> <len> <hex> -> ok <remaining> <summary> | eof | err <code>
   settings_frame <flags> <hex>          -> ok <remaining> <summary> | eof | err <code>
   fframe <0 normal|1 closed stream|2 in header block> <hex frame> -> the flood events of that received frame (as `f`)
+  psettings <hex payload> -> ack <local max frame size> | cerr <code>; cdecode <hex> -> decode with the connection's receive bound
   cnew <max streams> / cframe <sid> <kind> <end_stream 0|1> -> the connection-history model (connStep)
   stream <state> <frame kind>           -> handled | serr <code> | cerr <code>  (handle_header_state's table)
   first_settings <hex>                  -> the first SETTINGS payload of a connection, as h2.rs parses it
@@ -90,6 +91,7 @@ structure St where
   flood : Flood
   dead : Bool
   conn : Conn := Conn.init 100
+  sett : SettingsState := SettingsState.init
 
 def St.init : St := { flood := Flood.new FloodCfg.default, dead := false }
 
@@ -123,6 +125,16 @@ def stepLine (st : St) (line : String) : St × List String :=
       | .incomplete => (st, ["incomplete"])
       | .err c => (st, [s!"err {c}"])
     | _, _ => (st, ["bad-op"])
+  | ["psettings", hex] =>
+    match hexToBytes hex with
+    | some bs =>
+      let r := handleSettings st.sett 65536 (parseSettings bs)
+      ({ st with sett := r.1 }, [match r.2 with | none => s!"ack {r.1.localS.maxFrameSize}" | some c => s!"cerr {c}"])
+    | none => (st, ["bad-op"])
+  | ["cdecode", hex] =>
+    match hexToBytes hex with
+    | some bs => (st, [resStr (connDecode st.sett bs)])
+    | none => (st, ["bad-op"])
   | ["cnew", m] =>
     match m.toNat? with
     | some m => ({ st with conn := Conn.init m }, ["cnew"])
